@@ -368,5 +368,5 @@ def describe(tier):
                      'kill point (SQLite writes directly; no power-loss reordering)',
                      'SQLite atomic commit trusted', 'redirect hops may re-request a URL that '
                      'is already done (DESIGN.md section 6)'],
-        time_cap_s=None if tier == 'quick' else 3000,
+        time_cap_s=None if tier == 'quick' else 2400,
     )
